@@ -255,9 +255,10 @@ static void c12_in_check(Ctx& ctx, const Args& a)
     if (x > -65536 && ctx.call(ci, E_asin, x - 1, vp) && !m_isnan(vp) && vp > v) ctx.fail(ci, strf("asin is decreasing: asin(%" PRId64 ") = %" PRId64 " > asin(%" PRId64 ") = %" PRId64, x - 1, vp, x, v));
     if (ctx.call(ci, E_acos, x, ac)) {
       if (m_isnan(ac)) { ctx.fail(ci, strf("acos(%" PRId64 ") is NaN inside [-1, 1]", x)); continue; }
-      // within 1 ulp of pi/2 - asin(x): accepted against the real pi/2 or the library's constant
-      long double d1 = fabsl(rv(ac) - (PI_L / 2 - rv(v))), d2 = fabsl((long double)(ac - (ctx.cuts[ci].pidiv2 - v))) * ULP, d3 = fabsl((long double)(ac - (ctx.cuts[ci].phi / 2 - v))) * ULP;
-      if (std::min(d1, std::min(d2, d3)) > ULP + SLACK) ctx.fail(ci, strf("acos(%" PRId64 ") = %" PRId64 " is more than 1 ulp from pi/2 - asin(x) (asin = %" PRId64 ")", x, ac, v));
+      // within 1 ulp of pi/2 - asin(x), with the real pi/2 (the library's own phi/2 = 102943 raw is 0.70 ulp below it,
+      // its fixpidiv2 = 102944 is 0.30 ulp above: either constant leaves an exact subtraction inside the bound)
+      long double d1 = fabsl(rv(ac) - (PI_L / 2 - rv(v))); ctx.worst("acos_minus_(pi/2-asin)_ulp", d1 / ULP);
+      if (d1 > ULP + SLACK) ctx.fail(ci, strf("acos(%" PRId64 ") = %" PRId64 " is %.3Lf ulp from pi/2 - asin(x) (asin = %" PRId64 ")", x, ac, d1 / ULP, v));
       if (ac < -1 || rv(ac) > PI_L + ULP + SLACK) ctx.fail(ci, strf("acos(%" PRId64 ") = %" PRId64 " is more than 1 ulp outside [0, pi]", x, ac));
     }
   }
